@@ -34,6 +34,9 @@ CLAIMED = {
     "C17": ("4 C17", "get_now_frame / get_interpolated_now_frame are executed with symbolic integer timestamps, query time and "
             "tolerance (linear integer arithmetic, all orderings), and the real interpolation code with symbolic poses or "
             "symbolic query time; z3 decides nearest-in-tolerance, the neighbour gating and segment/shortest-arc exactness."),
+    "C04": ("4 C04", "Ap and Map are executed on result lists with symbolic centre distances, thresholds, confidences (all rankings "
+            "by forks for N<=3) and heading weights; on every path z3 compares the returned AP/APH/mAP with an independent "
+            "interpolated-PR-area term and decides the [0,1], APH<=AP and extreme-case claims."),
 }
 NA = {
     "C16": "dataset loading goes through the nuScenes devkit and file I/O; a symbolic stand-in for the devkit would be the "
